@@ -35,7 +35,7 @@ timer procedures, cancel requests, `get_next_packet` — returns (or raises) wit
 unchanged, from every state. -/
 theorem C05_no_write_outside_three_sites (env : Env) (s : DestSt) :
     (∀ f o d, (stateOf (handleFdWithoutPreviousMetadata f o d s)).fs = s.fs) ∧
-    (∀ c sz, (stateOf (handleEofWithoutPreviousMetadata env c sz s)).fs = s.fs) ∧
+    (∀ cc c sz, (stateOf (handleEofWithoutPreviousMetadata env cc c sz s)).fs = s.fs) ∧
     (∀ c k sz, (stateOf (handleEofPdu env c k sz s)).fs = s.fs) ∧
     (stateOf (deferredLostSegmentHandling env s)).fs = s.fs ∧
     (stateOf (fsmAdvancementAfterPacketsWereSent env s)).fs = s.fs ∧
@@ -45,10 +45,10 @@ theorem C05_no_write_outside_three_sites (env : Env) (s : DestSt) :
     (stateOf (getNextPacket s)).fs = s.fs ∧
     (∀ p, (stateOf (checkInsertedPacket env p s)).fs = s.fs) ∧
     (∀ o l, (stateOf (lostSegmentHandling o l s)).fs = s.fs) := by
-  refine ⟨fun f o d => ?_, fun c sz => ?_, fun c k sz => ?_, ?_, ?_, ?_, fun c => ?_, fun t => ?_, ?_,
+  refine ⟨fun f o d => ?_, fun cc c sz => ?_, fun c k sz => ?_, ?_, ?_, ?_, fun c => ?_, fun t => ?_, ?_,
     fun p => ?_, fun o l => ?_⟩
   · exact handleFdWithoutMd_f env s.fs f o d s rfl
-  · exact handleEofWithoutMd_f env s.fs c sz s rfl
+  · exact handleEofWithoutMd_f env s.fs cc c sz s rfl
   · exact handleEofPdu_f env s.fs c k sz s rfl
   · exact deferred_f env s.fs s rfl
   · exact fsmAdvancement_f env s.fs s rfl
